@@ -250,9 +250,28 @@ Definition is_container (n : node) : bool := is_seq n || is_map n || is_set n.
 
 Definition res := (list hit * list string)%type.
 
+(* A Python `for` loop over a container whose body yields paths and may
+   `continue`: the body gets the item, its position and seen_anchors, and
+   returns what it yielded plus the new seen_anchors. *)
+Section Loop.
+  Context {A : Type}.
+  Variable body : A -> nat -> list string -> outcome res.
+  Fixpoint loop (l : list A) (idx : nat) (seen : list string) : outcome res :=
+    match l with
+    | [] => Ok ([], seen)
+    | x :: r =>
+        do hs <- body x idx seen;
+        do rs <- loop r (S idx) (snd hs);
+        Ok ((fst hs ++ fst rs)%list, snd rs)
+    end.
+End Loop.
+
 (* pool = data.non_merged_items() unless either alias option is on *)
 Definition skip_merged (oi : N) (pos : nat) : bool :=
   is_merged mt oi pos && negb (o_kalias o || o_valias o).
+
+Definition is_unsearchable_alias (a : amatch) : bool :=
+  match a with UnsearchableAlias => true | _ => false end.
 
 (* ---- yield_children ---- *)
 Fixpoint yield_children (n : node) (bp : string) (lc : loc) (kd : hkind) (seen : list string)
@@ -260,63 +279,44 @@ Fixpoint yield_children (n : node) (bp : string) (lc : loc) (kd : hkind) (seen :
   match n with
   | NSeq _ els =>
       let pre := seq_prefix bp in
-      (fix go (l : list node) (idx : nat) (seen : list string) : outcome res :=
-         match l with
-         | [] => Ok ([], seen)
-         | ele :: r =>
-             do am_s <- search_anchor ele seen (o_valias o);
-             let '(am, seen1) := am_s in
-             let tmp := elem_path pre am idx ele in
-             let lc' := (lc ++ [RIdx idx])%list in
-             if negb (o_valias o) && is_excl am then go r (S idx) seen1
-             else
-               do hs <- (if is_container ele then yield_children ele tmp lc' kd seen1
-                         else Ok ([mkhit tmp lc' (HChild kd)], seen1));
-               let '(h, seen2) := hs in
-               do rs <- go r (S idx) seen2;
-               let '(h', seen3) := rs in
-               Ok ((h ++ h')%list, seen3)
-         end) els 0 seen
+      loop (fun ele idx seen =>
+              do am_s <- search_anchor ele seen (o_valias o);
+              let am := fst am_s in
+              let seen1 := snd am_s in
+              let tmp := elem_path pre am idx ele in
+              let lc' := (lc ++ [RIdx idx])%list in
+              if negb (o_valias o) && is_excl am then Ok ([], seen1)
+              else if is_container ele then yield_children ele tmp lc' kd seen1
+              else Ok ([mkhit tmp lc' (HChild kd)], seen1))
+           els 0 seen
   | NMap i kvs =>
       let pre := map_prefix bp in
-      (fix go (l : list (node * node)) (pos : nat) (seen : list string) : outcome res :=
-         match l with
-         | [] => Ok ([], seen)
-         | (key, val) :: r =>
-             if skip_merged (oid i) pos then go r (S pos) seen
-             else
-               let tmp := pre ++ escp (key_text key) in
-               let lc' := (lc ++ [key_ref key])%list in
-               do ka_s <- search_anchor key seen (o_kalias o);
-               let '(ka, seen1) := ka_s in
-               do va_s <- search_anchor val seen1 (o_valias o);
-               let '(va, seen2) := va_s in
-               if (negb (o_kalias o) && is_excl ka) || (negb (o_valias o) && is_excl va)
-               then go r (S pos) seen2
-               else
-                 do hs <- (if is_container val then yield_children val tmp lc' kd seen2
-                           else Ok ([mkhit tmp lc' (HChild kd)], seen2));
-                 let '(h, seen3) := hs in
-                 do rs <- go r (S pos) seen3;
-                 let '(h', seen4) := rs in
-                 Ok ((h ++ h')%list, seen4)
-         end) kvs 0 seen
+      loop (fun kv pos seen =>
+              let key := fst kv in
+              let val := snd kv in
+              if skip_merged (oid i) pos then Ok ([], seen)
+              else
+                let tmp := pre ++ escp (key_text key) in
+                let lc' := (lc ++ [key_ref key])%list in
+                do ka_s <- search_anchor key seen (o_kalias o);
+                do va_s <- search_anchor val (snd ka_s) (o_valias o);
+                let ka := fst ka_s in
+                let va := fst va_s in
+                let seen2 := snd va_s in
+                if (negb (o_kalias o) && is_excl ka) || (negb (o_valias o) && is_excl va)
+                then Ok ([], seen2)
+                else if is_container val then yield_children val tmp lc' kd seen2
+                else Ok ([mkhit tmp lc' (HChild kd)], seen2))
+           kvs 0 seen
   | NSet _ els =>
       let pre := map_prefix bp in
-      (fix go (l : list node) (seen : list string) : outcome res :=
-         match l with
-         | [] => Ok ([], seen)
-         | key :: r =>
-             let tmp := pre ++ escp (key_text key) in
-             let lc' := (lc ++ [member_ref key])%list in
-             do ka_s <- search_anchor key seen (o_kalias o);
-             let '(ka, seen1) := ka_s in
-             if negb (o_kalias o) && is_excl ka then go r seen1
-             else
-               do rs <- go r seen1;
-               let '(h', seen2) := rs in
-               Ok (mkhit tmp lc' (HChild kd) :: h', seen2)
-         end) els seen
+      loop (fun key (_ : nat) seen =>
+              let tmp := pre ++ escp (key_text key) in
+              let lc' := (lc ++ [member_ref key])%list in
+              do ka_s <- search_anchor key seen (o_kalias o);
+              if negb (o_kalias o) && is_excl (fst ka_s) then Ok ([], snd ka_s)
+              else Ok ([mkhit tmp lc' (HChild kd)], snd ka_s))
+           els 0 seen
   | NLeaf _ _ => Ok ([mkhit (root_slash bp) lc (HChild kd)], seen)
   end.
 
@@ -340,110 +340,83 @@ Definition ymk_hits (pre : string) (lc : loc) (oi : N) : outcome (list hit) :=
           (merge_refs mt oi) []
   else Ok [].
 
+(* the part shared by sequence elements and mapping values: what happens to a
+   value whose anchor classification is [am] *)
+Definition value_part (rec : node -> string -> loc -> list string -> outcome res)
+           (am : amatch) (v : node) (tmp : string) (lc' : loc) (seen : list string) : outcome res :=
+  match am with
+  | AliasExcluded => Ok ([], seen)
+  | AMatch | AliasIncluded => report v tmp lc' HValAnchor seen
+  | _ =>
+      if is_unsearchable_alias am && negb (o_valias o) then Ok ([], seen)
+      else if is_container v then rec v tmp lc' seen
+      else if o_values o then
+        do m <- term_matches (key_val v);
+        Ok (if m then [mkhit tmp lc' HVal] else [], seen)
+      else Ok ([], seen)
+  end.
+
 (* ---- search_for_paths ---- *)
 Fixpoint search_for_paths (n : node) (bp : string) (lc : loc) (seen : list string)
          {struct n} : outcome res :=
   match n with
   | NSeq _ els =>
       let pre := seq_prefix bp in
-      (fix go (l : list node) (idx : nat) (seen : list string) : outcome res :=
-         match l with
-         | [] => Ok ([], seen)
-         | ele :: r =>
-             do am_s <- search_anchor ele seen (o_valias o);
-             let '(am, seen1) := am_s in
-             let tmp := elem_path pre am idx ele in
-             let lc' := (lc ++ [RIdx idx])%list in
-             do hs <-
-               (match am with
-                | AliasExcluded => Ok ([], seen1)
-                | AMatch | AliasIncluded => report ele tmp lc' HValAnchor seen1
-                | _ =>
-                    if (match am with UnsearchableAlias => true | _ => false end) && negb (o_valias o)
-                    then Ok ([], seen1)
-                    else if is_container ele then search_for_paths ele tmp lc' seen1
-                    else if o_values o then
-                      do m <- term_matches (key_val ele);
-                      Ok (if m then [mkhit tmp lc' HVal] else [], seen1)
-                    else Ok ([], seen1)
-                end);
-             let '(h, seen2) := hs in
-             do rs <- go r (S idx) seen2;
-             let '(h', seen3) := rs in
-             Ok ((h ++ h')%list, seen3)
-         end) els 0 seen
+      loop (fun ele idx seen =>
+              do am_s <- search_anchor ele seen (o_valias o);
+              let am := fst am_s in
+              let seen1 := snd am_s in
+              let tmp := elem_path pre am idx ele in
+              let lc' := (lc ++ [RIdx idx])%list in
+              value_part (fun v t l s => search_for_paths v t l s) am ele tmp lc' seen1)
+           els 0 seen
   | NMap i kvs =>
       let pre := map_prefix bp in
       do body <-
-        (fix go (l : list (node * node)) (pos : nat) (seen : list string) : outcome res :=
-           match l with
-           | [] => Ok ([], seen)
-           | (key, val) :: r =>
-               if skip_merged (oid i) pos then go r (S pos) seen
-               else
-                 let tmp := pre ++ escp (key_text key) in
-                 let lc' := (lc ++ [key_ref key])%list in
-                 do ka_s <- search_anchor key seen (o_kalias o);
-                 let '(ka, seen1) := ka_s in
-                 do va_s <- search_anchor val seen1 (o_valias o);
-                 let '(va, seen2) := va_s in
-                 do hs <-
-                   (if negb (o_kalias o) && is_excl ka then Ok ([], seen2)
-                    else
-                      (* the key part: Some result = `continue` was reached *)
-                      do kres <-
-                        (if o_keys o then
-                           if is_hit ka then
-                             do hs <- report val tmp lc' HKeyAnchor seen2; Ok (Some hs)
-                           else
-                             do m <- term_matches (key_val key);
-                             if m then do hs <- report val tmp lc' HKey seen2; Ok (Some hs)
-                             else Ok None
-                         else Ok None);
-                      match kres with
-                      | Some hs => Ok hs
-                      | None =>
-                          match va with
-                          | AliasExcluded => Ok ([], seen2)
-                          | AMatch | AliasIncluded => report val tmp lc' HValAnchor seen2
-                          | _ =>
-                              if (match va with UnsearchableAlias => true | _ => false end)
-                                 && negb (o_valias o)
-                              then Ok ([], seen2)
-                              else if is_container val then search_for_paths val tmp lc' seen2
-                              else if o_values o then
-                                do m <- term_matches (key_val val);
-                                Ok (if m then [mkhit tmp lc' HVal] else [], seen2)
-                              else Ok ([], seen2)
-                          end
-                      end);
-                 let '(h, seen3) := hs in
-                 do rs <- go r (S pos) seen3;
-                 let '(h', seen4) := rs in
-                 Ok ((h ++ h')%list, seen4)
-           end) kvs 0 seen;
-      let '(h, seen1) := body in
+        loop (fun kv pos seen =>
+                let key := fst kv in
+                let val := snd kv in
+                if skip_merged (oid i) pos then Ok ([], seen)
+                else
+                  let tmp := pre ++ escp (key_text key) in
+                  let lc' := (lc ++ [key_ref key])%list in
+                  do ka_s <- search_anchor key seen (o_kalias o);
+                  do va_s <- search_anchor val (snd ka_s) (o_valias o);
+                  let ka := fst ka_s in
+                  let va := fst va_s in
+                  let seen2 := snd va_s in
+                  if negb (o_kalias o) && is_excl ka then Ok ([], seen2)
+                  else
+                    (* the key part: Some result = `continue` was reached *)
+                    do kres <-
+                      (if o_keys o then
+                         if is_hit ka then
+                           do hs <- report val tmp lc' HKeyAnchor seen2; Ok (Some hs)
+                         else
+                           do m <- term_matches (key_val key);
+                           if m then do hs <- report val tmp lc' HKey seen2; Ok (Some hs)
+                           else Ok None
+                       else Ok None);
+                    match kres with
+                    | Some hs => Ok hs
+                    | None => value_part (fun v t l s => search_for_paths v t l s) va val tmp lc' seen2
+                    end)
+             kvs 0 seen;
       do y <- ymk_hits pre lc (oid i);
-      Ok ((h ++ y)%list, seen1)
+      Ok ((fst body ++ y)%list, snd body)
   | NSet _ els =>
       let pre := map_prefix bp in
-      (fix go (l : list node) (seen : list string) : outcome res :=
-         match l with
-         | [] => Ok ([], seen)
-         | key :: r =>
-             let tmp := pre ++ escp (key_text key) in
-             let lc' := (lc ++ [member_ref key])%list in
-             do ka_s <- search_anchor key seen (o_kalias o);
-             let '(ka, seen1) := ka_s in
-             do h <-
-               (if negb (o_kalias o) && is_excl ka then Ok []
-                else if is_hit ka then Ok [mkhit tmp lc' HMemberAnchor]
-                else do m <- term_matches (key_val key);
-                     Ok (if m then [mkhit tmp lc' HMember] else []));
-             do rs <- go r seen1;
-             let '(h', seen2) := rs in
-             Ok ((h ++ h')%list, seen2)
-         end) els seen
+      loop (fun key (_ : nat) seen =>
+              let tmp := pre ++ escp (key_text key) in
+              let lc' := (lc ++ [member_ref key])%list in
+              do ka_s <- search_anchor key seen (o_kalias o);
+              let ka := fst ka_s in
+              if negb (o_kalias o) && is_excl ka then Ok ([], snd ka_s)
+              else if is_hit ka then Ok ([mkhit tmp lc' HMemberAnchor], snd ka_s)
+              else
+                do m <- term_matches (key_val key);
+                Ok (if m then [mkhit tmp lc' HMember] else [], snd ka_s))
+           els 0 seen
   | NLeaf _ _ => Ok ([], seen)
   end.
 
